@@ -184,6 +184,7 @@ def generate(rng, index, tier):
     if wishlist and interval and wishlist_timeout == -1 and rng.random() < 0.5:
         horizon = max(horizon, interval + 2.0)
     return {
+        'slow_close': rng.choice([0.05, 0.5, 2.0]) if rng.random() < 0.25 else 0,
         'shape': 'search', 'seed': rng.getrandbits(32), 'net': net, 'precise': precise,
         'settings': {'request_timeout': request_timeout, 'wishlist_timeout': wishlist_timeout,
                      'store': rng.random() < 0.8},
@@ -324,6 +325,18 @@ def _directed():
                 {'id': 1, 'op': 'search', 'kind': kind, 'when': ['t0', 0.5]},
                 {'id': 2, 'op': 'remove', 'target': ['req', 1], 'when': ['sent', ['req', 1], 0.5], 'hops': 0, 'by': by},
                 _reply(3, ['req', 1], ['op', 2, 0.3])]))
+    # an application listener that is slow whenever a peer connection closes: the reply is delivered while the request is
+    # live, the request goes away (user / timeout) while the connection of the reply is still being closed
+    for kind in ('net', 'user'):
+        for slow in (0.5, 2.0):
+            out.append(dict(base, settings=S2, slow_close=slow, ops=[
+                {'id': 1, 'op': 'search', 'kind': kind, 'when': ['t0', 0.5]},
+                _reply(2, ['req', 1], ['sent', ['req', 1], 0.5]),
+                {'id': 3, 'op': 'remove', 'target': ['req', 1], 'when': ['sent', ['req', 1], 0.7], 'hops': 0, 'by': 'object'}]))
+            out.append(dict(base, settings=S2, slow_close=slow, ops=[
+                {'id': 1, 'op': 'search', 'kind': kind, 'when': ['t0', 0.5]},
+                _reply(2, ['req', 1], ['deadline', ['req', 1], -0.2]),
+                _reply(3, ['req', 1], ['deadline', ['req', 1], -0.1], 1)]))
     # unknown tickets while another request is live; a reply for a ticket that is only issued later
     out.append(dict(base, settings=S2, ops=[
         {'id': 1, 'op': 'search', 'kind': 'net', 'when': ['t0', 0.5]},
@@ -635,6 +648,19 @@ def _run_search(world: World, plan):
             model.result(event.result.avg_speed, ident_of(event.query), now)
 
     alice.recorder.hooks.append(on_event)
+
+    if plan.get('slow_close'):
+        # an application listener that takes its time whenever a peer connection is being closed (legitimate use of
+        # the public bus): whatever the library awaits while closing a connection becomes a real suspension point
+        from aioslsk.events import ConnectionStateChangedEvent
+        from aioslsk.network.connection import ConnectionState, PeerConnection
+
+        async def slow_close(event):
+            if event.state == ConnectionState.CLOSING and isinstance(event.connection, PeerConnection):
+                world.net.fired['slow_close_listener'] += 1
+                await asyncio.sleep(plan['slow_close'])
+        world.keep_alive.append(slow_close)
+        client.events.register(ConnectionStateChangedEvent, slow_close)
 
     # ------------------------------------------------------------------ symbolic instants
     async def resolve_when(spec):
